@@ -178,6 +178,9 @@ class LinearityCase(Case):
       n = int(np.prod(sizes))
       K = tfc.sym([n, U], 'K')
       x = tfc.sym([1] + ([U] if U > 1 else []) + [len(sizes)], 'x')
+      if cfg.get('as_list'):
+        # the same point given as a list of per-dimension tensors (a separate code path for clipping / bucketizing)
+        x = [x[..., d:d + 1] for d in range(len(sizes))]
       w = ll.compute_interpolation_weights(x, sizes, True)
       out = ll.evaluate_with_hypercube_interpolation(x, K, U, sizes, True)
       exp = {}
@@ -254,9 +257,11 @@ def configs(tier, rng):
           patterns.append(tuple(rng.sample(idxs, k)))
       for z in patterns:
         jobs.append(('reduce_prod', dict(shape=shape, axis=axis, zeros=[list(map(int, i)) for i in z])))
-  for sizes in ([2], [3], [2, 2], [2, 3], [2, 2, 2]):
+  for sizes in ([2], [3], [2, 2], [2, 3], [2, 2, 2], [3, 2], [2, 3, 2]):
     for U in (1, 2):
       jobs.append(('linearity', dict(layer='lattice', sizes=sizes, units=U)))
+      if len(sizes) > 1:
+        jobs.append(('linearity', dict(layer='lattice', sizes=sizes, units=U, as_list=True)))
   for nk in (2, 3, 4):
     for U in (1, 2):
       jobs.append(('linearity', dict(layer='pwl', nk=nk, units=U)))
